@@ -1524,7 +1524,8 @@ func (pc *PartitionContext) removeAllocation(release *si.AllocationRelease) ([]*
 				zap.String("nodeID", alloc.GetNodeID()))
 			continue
 		}
-		if release.TerminationType == si.TerminationType_PLACEHOLDER_REPLACED {
+		// a placeholder replaced release without a linked replacement is a plain removal of the placeholder
+		if release.TerminationType == si.TerminationType_PLACEHOLDER_REPLACED && alloc.HasRelease() {
 			confirmed = alloc.GetRelease()
 			// we need to check the resources equality
 			delta := resources.Sub(confirmed.GetAllocatedResource(), alloc.GetAllocatedResource())
